@@ -64,14 +64,14 @@ theorem Stk.of_same {σ τ : Vm} (h : SameStacks σ τ) : Stk σ τ :=
 /-! ### the items -/
 
 /-- what the code of an item list does, given what `Ref.printItems` says -/
-def ItemsPost (code : Code) (sc : Scope) (below : List CtxState) (items : List PrintItem) (off : Nat) (σ : Vm) :
+def ItemsPost (W : World) (sc : Scope) (below : List CtxState) (items : List PrintItem) (off : Nat) (σ : Vm) :
     St × Outcome → Prop
-  | (s', .normal) => ∃ τ, Steps code σ τ ∧ τ.pc = off + sizeItems items ∧ Rel sc [] below s' τ ∧ Stk σ τ ∧
+  | (s', .normal) => ∃ τ, Steps W.code σ τ ∧ τ.pc = off + sizeItems items ∧ Rel W sc [] below s' τ ∧ Stk σ τ ∧
       τ.skipNewline = flagAfter σ.skipNewline items
-  | (s', o) => ErrPost code σ s' o
+  | (s', o) => ErrPost W.code σ s' o
 
-theorem ItemsPost.of_err {code : Code} {sc : Scope} {below : List CtxState} {items : List PrintItem} {off : Nat}
-    {σ : Vm} {s' : St} {o : Outcome} (h : ErrPost code σ s' o) : ItemsPost code sc below items off σ (s', o) := by
+theorem ItemsPost.of_err {W : World} {sc : Scope} {below : List CtxState} {items : List PrintItem} {off : Nat}
+    {σ : Vm} {s' : St} {o : Outcome} (h : ErrPost W.code σ s' o) : ItemsPost W sc below items off σ (s', o) := by
   cases o with
   | normal => exact h.elim
   | exited => exact h
@@ -82,10 +82,10 @@ theorem ItemsPost.of_err {code : Code} {sc : Scope} {below : List CtxState} {ite
   | illFormed => exact h
 
 /-- some steps (that keep the stacks and lead to a state with the flag `b`) before the rest of an item list -/
-theorem ItemsPost.prefix {code : Code} {sc : Scope} {below : List CtxState} {it : PrintItem} {rest : List PrintItem}
-    {off off' : Nat} {σ τ : Vm} {r : St × Outcome} (hst : Steps code σ τ) (hstk : Stk σ τ)
+theorem ItemsPost.prefix {W : World} {sc : Scope} {below : List CtxState} {it : PrintItem} {rest : List PrintItem}
+    {off off' : Nat} {σ τ : Vm} {r : St × Outcome} (hst : Steps W.code σ τ) (hstk : Stk σ τ)
     (hflag : τ.skipNewline = isSep it) (hoff : off' + sizeItems rest = off + sizeItems (it :: rest))
-    (h : ItemsPost code sc below rest off' τ r) : ItemsPost code sc below (it :: rest) off σ r := by
+    (h : ItemsPost W sc below rest off' τ r) : ItemsPost W sc below (it :: rest) off σ r := by
   obtain ⟨s', o⟩ := r
   cases o with
   | normal =>
@@ -102,9 +102,9 @@ theorem ItemsPost.prefix {code : Code} {sc : Scope} {below : List CtxState} {it 
 through the item expressions (which may call functions that print, read DATA, …) -/
 theorem items_correct (W : World) (fuel : Nat) (ih : IHle W fuel) (sc : Scope) (p : Pos) (below : List CtxState) :
     ∀ (items : List PrintItem) (f : Nat) (off : Nat) (σ : Vm) (s : St), f ≤ fuel →
-      CodeAt W.code off (compileItems W.lay p off items) → σ.pc = off → Rel sc [] below s σ →
+      CodeAt W.code off (compileItems W.lay p off items) → σ.pc = off → Rel W sc [] below s σ →
       ItemsWf W.sg sc.slots items →
-      ItemsPost W.code sc below items off σ (Proc.Ref.printItems W.P f items s) := by
+      ItemsPost W sc below items off σ (Proc.Ref.printItems W.P f items s) := by
   intro items
   induction items with
   | nil =>
@@ -128,7 +128,7 @@ theorem items_correct (W : World) (fuel : Nat) (ih : IHle W fuel) (sc : Scope) (
         have h0 : W.code[σ.pc]? = some (CInstr.printComma, p) := hc.append_left.head
         let σ1 : Vm := Vm.advance { σ with out := σ.out.moveToNextPrintZone, skipNewline := true }
         have s1 : Vm.step W.code σ = .next σ1 := by simp only [Vm.step, h0]; rfl
-        have hr1 : Rel sc [] below { s with out := s.out.moveToNextPrintZone } σ1 :=
+        have hr1 : Rel W sc [] below { s with out := s.out.moveToNextPrintZone } σ1 :=
           hr.congr rfl rfl (by show σ.out.moveToNextPrintZone = s.out.moveToNextPrintZone; rw [hr.out])
             hr.data hr.dataIdx hr.queue hr.funRes
         have h := ihr n (σ.pc + 1) σ1 _ hn hc.append_right rfl hr1 hw
@@ -141,7 +141,7 @@ theorem items_correct (W : World) (fuel : Nat) (ih : IHle W fuel) (sc : Scope) (
         have h0 : W.code[σ.pc]? = some (CInstr.printSemicolon, p) := hc.append_left.head
         let σ1 : Vm := Vm.advance { σ with skipNewline := true }
         have s1 : Vm.step W.code σ = .next σ1 := by simp only [Vm.step, h0]; rfl
-        have hr1 : Rel sc [] below s σ1 := hr.same rfl rfl rfl rfl rfl rfl
+        have hr1 : Rel W sc [] below s σ1 := hr.same rfl rfl rfl rfl rfl rfl
         have h := ihr n (σ.pc + 1) σ1 s hn hc.append_right rfl hr1 hw
         simp only [Proc.Ref.printItems]
         exact ItemsPost.prefix (Steps.one s1) ⟨rfl, rfl, rfl, rfl, rfl, rfl⟩ rfl
@@ -174,7 +174,7 @@ theorem items_correct (W : World) (fuel : Nat) (ih : IHle W fuel) (sc : Scope) (
             have hpv' : W.code[τ.pc]? = some (CInstr.printValue, e.pos) := by rw [hp]; exact hpv
             have hpr' : _root_.RbModel.Ref.printValue τ.regs.a = some pv := by rw [hav]; exact hpr
             have s2 : Vm.step W.code τ = .next τ1 := by simp only [Vm.step, hpv', hpr']; rfl
-            have hr1 : Rel sc [] below { s1 with out := s1.out.print (Print.valueText pv) } τ1 :=
+            have hr1 : Rel W sc [] below { s1 with out := s1.out.print (Print.valueText pv) } τ1 :=
               hrel.congr rfl rfl
                 (by show τ.out.print (Print.valueText pv) = s1.out.print (Print.valueText pv); rw [hrel.out])
                 hrel.data hrel.dataIdx hrel.queue hrel.funRes
@@ -192,7 +192,7 @@ theorem head_steps (code : Code) (p : Pos) (σ : Vm)
     (hc : CodeAt code σ.pc [(CInstr.printSetPrinter, p), (CInstr.loadA (.int 0), p), (CInstr.printSetFormat, p)]) :
     ∃ τ, Steps code σ τ ∧ τ.pc = σ.pc + 3 ∧ τ.ctx = σ.ctx ∧ τ.out = σ.out ∧ τ.data = σ.data ∧
       τ.dataIdx = σ.dataIdx ∧ τ.queue = σ.queue ∧ τ.funRes = σ.funRes ∧ Stk σ τ ∧
-      τ.skipNewline = false := by
+      τ.skipNewline = false ∧ τ.glob = σ.glob ∧ τ.statics = σ.statics := by
   have h0 : code[σ.pc]? = some (CInstr.printSetPrinter, p) := hc.head
   have h1 : code[σ.pc + 1]? = some (CInstr.loadA (.int 0), p) := hc.tail.head
   have h2 : code[σ.pc + 1 + 1]? = some (CInstr.printSetFormat, p) := hc.tail.tail.head
@@ -208,7 +208,7 @@ theorem head_steps (code : Code) (p : Pos) (σ : Vm)
     have ha : σ2.regs.a = .int 0 := rfl
     simp only [Vm.step, h2', ha]; rfl
   exact ⟨σ3, Steps.cons s1 (Steps.cons s2 (Steps.one s3)), rfl, rfl, rfl, rfl, rfl, rfl, rfl,
-    ⟨rfl, rfl, rfl, rfl, rfl, rfl⟩, rfl⟩
+    ⟨rfl, rfl, rfl, rfl, rfl, rfl⟩, rfl, rfl, rfl⟩
 
 end RbThm.ProcSim.SimPrint
 
@@ -221,18 +221,18 @@ open RbThm.ProcLen RbThm.ProcSim.SimPrint
 theorem case_print (W : World) (fuel : Nat) (ih : IHle W fuel) (items : List PrintItem) (p : Pos)
     (sc : Scope) (sfx : String) (fd sd off : Nat) (below : List CtxState) (s : St) (σ : Vm)
     (hc : CodeAt W.code off (compileStmt W.lay sfx fd sd off (.print items p))) (hpc : σ.pc = off)
-    (hr : Rel sc [] below s σ) (hw : Wf W.sg sc (.print items p)) (ha : ActInv sc fd sd σ) :
-    StmtPost W.code sc below fd sd (sizeStmt fd sd (.print items p)) off σ
+    (hr : Rel W sc [] below s σ) (hw : Wf W.sg sc (.print items p)) (ha : ActInv sc fd sd σ) :
+    StmtPost W sc below fd sd (sizeStmt fd sd (.print items p)) off σ
       (Proc.Ref.exec W.P (fuel + 1) (desugar (.print items p)) s) := by
   simp only [compileStmt] at hc
   simp only [Wf] at hw
   have hwi := hw
   subst hpc
-  obtain ⟨σ3, pre, hp3, hctx3, hout3, hdata3, hidx3, hq3, hf3, hstk3, hflag3⟩ :=
+  obtain ⟨σ3, pre, hp3, hctx3, hout3, hdata3, hidx3, hq3, hf3, hstk3, hflag3, hg3, hs3⟩ :=
     head_steps W.code p σ hc.append_left.append_left
   -- the statement's head has cleared the flag
   have hflag0 : items = [] → σ3.skipNewline = false := fun _ => hflag3
-  have hr3 : Rel sc [] below s σ3 := hr.same hctx3 hout3 hdata3 hidx3 hq3 hf3
+  have hr3 : Rel W sc [] below s σ3 := hr.same hctx3 hout3 hdata3 hidx3 hq3 hf3 hg3 hs3
   have hci : CodeAt W.code (σ.pc + 3) (compileItems W.lay p (σ.pc + 3) items) := hc.append_left.append_right
   have hit := items_correct W fuel ih sc p below items fuel (σ.pc + 3) σ3 s (Nat.le_refl _) hci hp3 hr3 hwi
   have hend : W.code[σ.pc + 3 + sizeItems items]? = some (CInstr.printEnd, p) := by
